@@ -139,7 +139,8 @@ def record(cls, fmt, names, stream, chunks, query_every=False):
     return {'s': list(stream), 'ev': ev}, r
 
 
-NAMES = {'chain': ['ident', 'header', 'meta', 'vds'], 'fixed': ['header', 'opt', 'tail']}
+NAMES = {'chain': ['ident', 'header', 'meta', 'vds'], 'fixed': ['header', 'opt', 'tail'],
+         'reloc': ['header', 'desc', 'footer']}
 
 
 def trace_stage(ctx, fmt, refs, count, label):
